@@ -61,9 +61,11 @@ export function diffRuntypes(a, b, seen = new Map(), depth = 0) {
           leftB.splice(j, 1);
         } else restA.push(m);
       });
-      const rank = (m) => {
+      const rank = (m, d = 0) => {
         const r = deref(m);
-        return (r && r.constructor.name) + ":" + (r && r.properties ? Object.keys(r.properties).sort().join(",") : "");
+        if (!r) return "?";
+        const inner = r.properties ? Object.keys(r.properties).sort().join(",") : Array.isArray(r.schemas) && d < 2 ? "[" + r.schemas.map((x) => rank(x, d + 1)).sort().join(";") + "]" : "";
+        return r.constructor.name + ":" + inner;
       };
       restA.sort((x, y) => rank(x).localeCompare(rank(y)));
       leftB.sort((x, y) => rank(x).localeCompare(rank(y)));
